@@ -9,6 +9,9 @@ import ClarabelProofs.Lemmas.StepRW
 import ClarabelProofs.Lemmas.StepVec
 import Mathlib.Tactic.NormNum
 import Mathlib.Tactic.FinCases
+import ClarabelProofs.Props.C09
+import ClarabelProofs.Props.C16
+import Mathlib.Analysis.SpecialFunctions.Exp
 
 namespace Clarabel.C05
 open Clarabel Clarabel.Step Clarabel.Lemmas Matrix
@@ -279,5 +282,79 @@ example : (runSolve false [.full, .full, .contSmallStep, .full] .atTermination).
   solve_is_function_of_data _ _ _ (by decide)
 
 end rw
+
+section formulation
+
+/-- [S] **Nonnegative cones split or merged** (corollary of `C09.collapse_nn_split_merge`,
+`C09.collapse_idempotent`): `new_collapsed`, which `DefaultProblemData::new` applies to the
+user's cone list first, maps `… NN(a), NN(b) …` and `… NN(a+b) …` to the same internal cone
+list, and is idempotent — so the split and the merged formulation are the *same* internal
+problem (rows are untouched by the collapse). -/
+theorem collapse_split_merge {α : Type} (pre post : List (ConeT α)) (a b : Nat) :
+    Cones.newCollapsed (pre ++ ConeT.nonneg a :: ConeT.nonneg b :: post)
+        = Cones.newCollapsed (pre ++ ConeT.nonneg (a + b) :: post)
+    ∧ Cones.newCollapsed (Cones.newCollapsed (pre ++ ConeT.nonneg (a + b) :: post))
+        = Cones.newCollapsed (pre ++ ConeT.nonneg (a + b) :: post) :=
+  ⟨C09.collapse_nn_split_merge pre post a b, C09.collapse_idempotent _⟩
+
+/-- [S] **`P` given full or upper-triangular** (corollary of `C16.toTriu_spec`): two canonical
+square encodings that agree on and above the diagonal (e.g. a full symmetric `P` and its upper
+triangle) are mapped by `to_triu` to matrices with the same dense meaning — the same
+internal `P`, entry for entry, for every scalar type. -/
+theorem triu_of_full {α : Type} [Add α] [OfNat α 0] (M M' : Csc α) (hM : C16.Canonical M)
+    (hM' : C16.Canonical M') (hsq : M.m = M.n) (hsq' : M'.m = M'.n) (hn : M.n = M'.n)
+    (hup : ∀ i j, i ≤ j → M.toDense i j = M'.toDense i j) :
+    ∃ R R', M.toTriu = .ok R ∧ M'.toTriu = .ok R' ∧ R.isTriu = true ∧ R'.isTriu = true ∧
+      ∀ i j, j < M.n → R.toDense i j = R'.toDense i j := by
+  obtain ⟨R, h1, _, _, _, h4, h5⟩ := C16.toTriu_spec M hM hsq
+  obtain ⟨R', h1', _, _, _, h4', h5'⟩ := C16.toTriu_spec M' hM' hsq'
+  refine ⟨R, R', h1, h1', h4, h4', ?_⟩
+  intro i j hj
+  rw [h5 i j hj, h5' i j (hn ▸ hj)]
+  by_cases hij : i ≤ j
+  · simp only [hij, if_true]; exact hup i j hij
+  · simp only [hij, if_false]
+
+end formulation
+
+section expcone
+
+/-- [R] **Exponential cone pairing.**  For `s = (x,y,z)` in the exponential cone
+(`y > 0`, `y·exp(x/y) ≤ z`) and `(u,v,w)` in its dual (`u < 0`, `−u·exp(v/u) ≤ e·w`):
+`s·(u,v,w) ≥ 0` — hypothesis `hK` of `weak_duality_slack` for exponential-cone rows (the
+parts of the two cones with `y > 0`, `u < 0`, where the solver's iterates live). -/
+theorem exp_cone_pairing_nonneg (x y z u v w : ℝ) (hy : 0 < y) (hs : y * Real.exp (x / y) ≤ z)
+    (hu : u < 0) (hz : -u * Real.exp (v / u) ≤ Real.exp 1 * w) : 0 ≤ x * u + y * v + z * w := by
+  have hnu : 0 < -u := by linarith
+  have he : 0 < Real.exp 1 := Real.exp_pos 1
+  -- w ≥ −u·exp(v/u − 1)
+  have hw : -u * Real.exp (v / u - 1) ≤ w := by
+    rw [Real.exp_sub, mul_div_assoc']
+    rw [div_le_iff₀ he]
+    linarith
+  have hz0 : 0 ≤ z := le_trans (mul_nonneg hy.le (Real.exp_pos _).le) hs
+  have hw0 : 0 ≤ w := le_trans (mul_nonneg hnu.le (Real.exp_pos _).le) hw
+  -- z·w ≥ (−u)·y·exp(x/y + v/u − 1)
+  have hzw : y * Real.exp (x / y) * (-u * Real.exp (v / u - 1)) ≤ z * w :=
+    mul_le_mul hs hw (mul_nonneg hnu.le (Real.exp_pos _).le) hz0
+  have hcomb : y * Real.exp (x / y) * (-u * Real.exp (v / u - 1))
+      = (-u * y) * Real.exp (x / y + v / u - 1) := by
+    rw [show x / y + v / u - 1 = x / y + (v / u - 1) by ring, Real.exp_add]; ring
+  -- exp(t − 1) ≥ t
+  have ht := Real.add_one_le_exp (x / y + v / u - 1)
+  have h1 : y * (x / y) = x := by field_simp
+  have h2 : u * (v / u) = v := mul_div_cancel₀ v hu.ne
+  have hlin : x * u + y * v = -(-u * y) * (x / y + v / u) := by
+    calc x * u + y * v = (y * (x / y)) * u + y * (u * (v / u)) := by rw [h1, h2]
+      _ = -(-u * y) * (x / y + v / u) := by ring
+  have hpos : 0 ≤ -u * y := (mul_pos hnu hy).le
+  nlinarith [mul_le_mul_of_nonneg_left ht hpos]
+
+/-- non-vacuity: `(0,1,1)` lies in the cone, `(−1,0,1)` in the dual -/
+example : (0 : ℝ) ≤ 0 * (-1) + 1 * 0 + 1 * 1 :=
+  exp_cone_pairing_nonneg 0 1 1 (-1) 0 1 (by norm_num) (by simp) (by norm_num)
+    (by simp)
+
+end expcone
 
 end Clarabel.C05
